@@ -254,6 +254,13 @@ def sec_parse(rope):
     if L not in (33, 64, 65):
         return False, None
     v = rope.be()
+    if L == 33 and z3.is_app(v) and v.decl().eq(_sec_c):
+        # the compressed encoding OF a point parses back to that point (E4)
+        pt = v.arg(0)
+        return pt != INF, SymPt(pt)
+    if L == 65 and z3.is_app(v) and v.decl().eq(_sec_u):
+        pt = v.arg(0)
+        return pt != INF, SymPt(pt)
     ok = valid_fn(L)(v)
     p = unsec_fn(L)(v)
     S = sink()
